@@ -345,7 +345,7 @@ pub fn run(ctx: &Ctx, rep: &mut Report) {
     rep.prop(
         "archive-names",
         "proptest: SSSSYYYYMMDD_HHMMSS+suffix with site [A-Z0-9]{4}, valid calendar dates 1990-2100 (month ends / leap days boosted), any time, six suffixes; non-trivial = last day of a month or Feb 29",
-        ctx.tier.pick(300_000, 30_000_000),
+        ctx.tier.pick(2_000_000, 30_000_000),
         archive_strategy,
         |c| CaseInfo::new(c.day == days_in_month(c.year, c.month)).class(c.month == 2 && c.day == 29, "leap-day").class(c.suffix.is_empty(), "no-suffix"),
         check_archive_name,
@@ -355,7 +355,7 @@ pub fn run(ctx: &Ctx, rep: &mut Report) {
     rep.prop(
         "arbitrary-strings",
         "proptest: arbitrary Unicode (\\PC{0,40}), strings with a multi-byte character placed around byte offsets 4/12/13/19, near-miss archive and chunk names, dashes only, short ASCII; non-trivial = a multi-byte character straddles one of the slice offsets 4, 12, 13, 19",
-        ctx.tier.pick(800_000, 60_000_000),
+        ctx.tier.pick(4_000_000, 60_000_000),
         string_strategy,
         |c| CaseInfo::new(straddles(&c.text)).class(c.text.is_empty(), "empty").class(c.text.len() < 15, "short").class(!c.text.is_ascii(), "non-ascii"),
         check_string,
